@@ -99,7 +99,8 @@ CHECKS = {
          "from_latent_variable_dag reads any tagged DAG back as specified (observed nodes, edges leaving observed nodes, a bidirected edge between distinct children of a latent; "
          "ValueError iff a node lacks the tag); and composing the two contracts gives back the original graph, nodes without edges included (clauses roundtrip.*). "
          "Evans simplification (simplify_latent.py mutates a DiGraph while a lazy topological iterator over it is live) is outside the VC generator's subset and is decided by the labelled "
-         "bounded stand-in: idempotence, observed nodes kept, and equality with the latent projection on every DAG with 2-4 nodes x every latent tagging and sampled 5-6 node tagged DAGs. "
+         "bounded stand-in: idempotence, observed nodes kept, and equality with the latent projection on every DAG with 2-4 nodes x every latent tagging, sampled 5-6 node tagged DAGs, "
+         "and a structured family of latent chains (a latent with observed parents whose children include another latent). "
          "The 'consequently' clause (separation / identifiability unchanged) follows from projection equality by Evans 2016 (trusted).",
          TRUST + "; preconditions: latent names f'{prefix}{i}' are not nodes of the graph, no bidirected self-loops; Variable(f'{prefix}{i}') injective in i; trusted mathematics: Evans 2016",
          TECH + " (round trip) + bounded exhaustive check of Evans simplification against an independent latent projection", "DESIGN.md §5 C16"),
@@ -123,10 +124,12 @@ CHECKS = {
          TRUST, "bounded syntactic vocabulary check on enumerated / sampled queries + contract-based proof that ID's summation ranges and conditional arguments are graph nodes", "DESIGN.md §5 C06"),
  "C11": ("other", "No obligation is discharged for this property (stated in the evidence: obligations = 0): the Canon predicate (children sorted by the ordering, flat products sorted by an "
          "injective key) needs an ordered-sequence / sort-key theory the VC generator does not have, so the check is the labelled bounded stand-in only. On sampled well-scoped "
-         "expressions of depth <= 3, products of 4-6 factors under random bracketings, and products of compound factors sharing their leading inner factor: idempotence, "
+         "expressions of depth <= 3, products of 4-6 factors under random bracketings, products of compound factors sharing their leading inner factor, and every probability leaf "
+         "over three variables (value marks, subscripts, population tag) in every order of its children and parents: idempotence, "
          "invariance under presentation (factor order, product nesting, order of variables around the bar), and identical canonical text under three PYTHONHASHSEED values in fresh "
-         "interpreters. Two open known findings (sort-key ties; single-pass fraction / product handling) are replayed every run and their input classes K1, K2 -- computed from a "
-         "re-statement of the intended keys, not from the code under test -- are excluded from the clause they break.",
+         "interpreters. Two open known findings (sort-key ties; single-pass fraction / product handling) are replayed every run and their classes are excluded from the clause they break: "
+         "K2 by a predicate on the input, K1 both by a predicate on the input (a re-statement of the intended keys on an independent normal form) and on the outputs (two canonical forms "
+         "that differ only in the relative order of factors whose documented keys are equal) -- nested sums, unit factors and nested fractions make ties unpredictable from the input alone.",
          "Trusted: the exact evaluator and the re-statement of the intended sort keys in props/C11.py; note that canonicalize() sorts any supplied ordering by name, so the effective ordering is always alphabetical",
          "bounded run-time check only (no contract discharged)", "DESIGN.md §5 C11"),
  "C19": ("other", "Proved for all graphs and variables (relations + a small algebra of Variable objects: base variable, subscript relation, plain variable of the same name): "
